@@ -383,17 +383,20 @@ def hitmiss(input, Bc, out=None, output=None):
 
     if out is None:
         out = np.empty(input.shape, input.dtype)
-    else:
-        if out.shape != input.shape:
-            raise ValueError('mahotas.hitmiss: out must be of same shape as input')
-        if not out.flags.c_contiguous:
-            raise ValueError('mahotas.hitmiss: out must be C-contiguous')
-        if out.dtype != input.dtype:
-            if out.dtype == np.bool_ and input.dtype == np.uint8:
-                out = out.view(np.uint8)
-            else:
-                raise TypeError('mahotas.hitmiss: out must be of same type as input')
-    return _morph.hitmiss(input, Bc, out)
+        return _morph.hitmiss(input, Bc, out)
+    if out.shape != input.shape:
+        raise ValueError('mahotas.hitmiss: out must be of same shape as input')
+    if not out.flags.c_contiguous:
+        raise ValueError('mahotas.hitmiss: out must be C-contiguous')
+    work = out
+    if out.dtype != input.dtype:
+        if out.dtype == np.bool_ and input.dtype == np.uint8:
+            work = out.view(np.uint8)
+        else:
+            raise TypeError('mahotas.hitmiss: out must be of same type as input')
+    _morph.hitmiss(input, Bc, work)
+    # the caller's array, not the view the kernel wrote through
+    return out
 
 
 def open(f, Bc=None, out=None, output=None):
